@@ -179,27 +179,43 @@ def cli_pass(ctx, cases, impl, handler, ext, max_good=8, max_bad=4, max_noop=3):
         return
     # one epoch (and, for archives, one file mtime) per command line: take the most common among modifying cases
     key = lambda c: (c.epoch, c.mtime)
-    best = _c.Counter(key(c) for c in good_all).most_common(1)[0][0]
-    grp = [c for c in sel if key(c) == best]
-    good = [c for c in grp if impl[c.cid][0] == "Replaced"][:max_good]
-    bad = [c for c in grp if impl[c.cid][0] in ("BadFormat", "Error")][:max_bad]
-    noop = [c for c in grp if impl[c.cid][0] == "Noop"][:max_noop]
-    epoch, fmtime = best
+    cnt = _c.Counter(key(c) for c in good_all)
+    best = cnt.most_common(1)[0][0]
+    # also the smallest and the largest epoch with a modifying case (0 and dates in the future are epochs like any other)
+    with_epoch = [k for k in cnt if k[0] is not None]
+    groups = [best]
+    if with_epoch:
+        for k in (min(with_epoch, key=lambda k: k[0]), max(with_epoch, key=lambda k: k[0])):
+            if k not in groups:
+                groups.append(k)
     problems = []
-    configs = [("serial", []), ("-j1", ["-j1"]), ("-j3", ["-j3"])]
-    for label, opts in configs:
+    nfiles = 0
+    chosen_all = {}
+    for gkey in groups:
+      grp = [c for c in sel if key(c) == gkey]
+      good = [c for c in grp if impl[c.cid][0] == "Replaced"][:max_good if gkey == best else 3]
+      bad = [c for c in grp if impl[c.cid][0] in ("BadFormat", "Error")][:max_bad if gkey == best else 1]
+      noop = [c for c in grp if impl[c.cid][0] == "Noop"][:max_noop if gkey == best else 1]
+      epoch, fmtime = gkey
+      nfiles += 1 + len(bad) + len(good) + len(noop)
+      chosen_all[gkey] = bad + good + noop
+      configs = [("serial", []), ("-j1", ["-j1"]), ("-j3", ["-j3"]), ("LIMIT", [])] if gkey == best else [("serial", []), ("-j2", ["-j2"])]
+      for label, opts in configs:
+        label = "%s SOURCE_DATE_EPOCH=%s" % (label, epoch)
         t = fh.Tree()
         try:
-            order, expect = [], {}
+            order, expect, inputs = [], {}, {}
             garbage = b"\x00\xffnot a file of this format\n" * 3          # refused (or ignored) by every handler, listed first
             t.add_file("00-garbage." + ext, garbage)
             order.append("00-garbage." + ext)
             expect["00-garbage." + ext] = garbage
+            inputs["00-garbage." + ext] = garbage
             for i, c in enumerate(bad + good + noop, 1):
                 rel = ("sub/" if i % 3 == 2 else "") + "%02d-%s.%s" % (i, c.cid.replace("/", "_")[:40], ext)
                 t.add_file(rel, c.data, mtime_ns=(fmtime * 10**9 if fmtime is not None else 1700000000 * 10**9))
                 order.append(rel)
                 expect[rel] = impl[c.cid][1] if impl[c.cid][0] == "Replaced" else c.data
+                inputs[rel] = c.data
             stale = []
             for rel in [r for r in order if expect[r] != open(t.path(r), "rb").read()][:2]:
                 d, b = os.path.split(rel)
@@ -207,30 +223,38 @@ def cli_pass(ctx, cases, impl, handler, ext, max_good=8, max_bad=4, max_noop=3):
                 t.add_file(srel, b"STALE-TEMPORARY-DATA " * ((len(expect[rel]) + 4096) // 21 + 1))
                 stale.append(srel)
             args = opts + ["--handler", handler] + [t.path(r) for r in order if not r.startswith("sub/")] + [t.path("sub")] * (1 if any(r.startswith("sub/") for r in order) else 0)
-            rc, out = fh.run_cli(args, epoch=epoch, timeout=180)
+            limit = None
+            if label.startswith("LIMIT"):
+                # writes cut short: no file may grow beyond half the size of the largest output; what cannot be written completely stays as it was
+                limit = max(1, max([len(v) for r, v in expect.items() if v != inputs[r]] or [2]) // 2)      # of the outputs that are written
+                label = label.replace("LIMIT", "serial, files limited to %d bytes," % limit)
+            rc, out = fh.run_cli(args, epoch=epoch, timeout=180, fsize_limit=limit)
             if rc == 124:
-                problems.append((label, "the run did not come back", order, None))
+                problems.append((label, "the run did not come back", order, None, gkey))
                 continue
             for rel in order:
                 try:
                     got = open(t.path(rel), "rb").read()
                 except OSError as e:
                     got = None
+                if limit is not None and got is not None and got == inputs[rel] and len(expect[rel]) > limit:
+                    continue          # refused for lack of room: left as it was
                 if got != expect[rel]:
-                    problems.append((label, "%s: %s bytes on disk, the in-process run gave %d (input %d)" % (rel, "no" if got is None else len(got), len(expect[rel]), len(open(t.path(rel), "rb").read()) if got is not None else 0), order, out[-600:]))
+                    problems.append((label, "%s: %s bytes on disk, the in-process run gave %d (input %d)" % (rel, "no" if got is None else len(got), len(expect[rel]), len(open(t.path(rel), "rb").read()) if got is not None else 0), order, out[-600:], gkey))
                     break
             left = [os.path.join(dp, f) for dp, _, fs in os.walk(t.root) for f in fs if f.startswith(".#.") and f.endswith(".tmp")]
             if left:
-                problems.append((label, "temporary file left behind: %s" % ", ".join(os.path.relpath(x, t.root) for x in left[:3]), order, out[-600:]))
+                problems.append((label, "temporary file left behind: %s" % ", ".join(os.path.relpath(x, t.root) for x in left[:3]), order, out[-600:], gkey))
         finally:
             t.remove()
     ok = not problems
-    name = "cli[%s]: serial, -j1 and -j3 over %d files (%d refused ones first, stale temporary files beside two inputs) leave every file with the bytes of the in-process run" % (handler, 1 + len(bad) + len(good) + len(noop), 1 + len(bad))
+    name = "cli[%s]: serial and -jN runs over %d files in %d epoch group(s) %s (a refused file first, stale temporary files beside two inputs) leave every file with the bytes of the in-process run" % (handler, nfiles, len(groups), [g[0] for g in groups])
     if ok:
         ctx.oblige(name, True, "")
     else:
-        label, why, order, out = problems[0]
-        chosen = bad + good + noop
+        label, why, order, out, gkey = problems[0]
+        chosen = chosen_all[gkey]
+        epoch, fmtime = gkey
         files = {}
         for i, c in enumerate(chosen):
             files["%02d-input.%s" % (i, ext)] = c.data
